@@ -833,6 +833,10 @@ int main(int argc, char** argv) {
         specificRandom(A, rng, maxT, 300 * scale);
       break;
     }
+    if (A.exhaustive_triples) { // per-routine share of the exhaustively enumerated sub-spaces
+      static const char* SHORT[] = {"block_range_int", "block_range_iter", "split_range", "StandardRange", "SpecificRange"};
+      A.extra[std::string("exhaustive_triples.") + SHORT[en.comp]] = A.exhaustive_triples;
+    }
     std::string sig = comp + "|" + fam + "|s" + std::to_string(en.slice) + "|mp" + (A.more_parts_than_elems ? "1" : "0") +
                       "|z" + (A.zero_size_inputs ? "1" : "0") + "|smp" + (A.sampled_divisions ? "1" : "0");
     H.end(k, sig, A.nontrivial(), A.obs());
